@@ -51,6 +51,10 @@ def _table(run, rule, fi, flow, ps, cases, label_of, expect, stop_label="reaches
         outs = sorted(outs)
         want = expect(case)
         construct = "%s[%s]" % (fi.qual, label_of(case))
+        # a validator may hand the TypeError back (the wrapper raises it) or raise it itself: the same rejection
+        if want == "return TypeError" and outs == ["raise TypeError"]:
+            run.ok(rule, construct, "outcome `raise TypeError` (raised by the validator itself)", fi.loc())
+            continue
         if outs != [want]:
             run.violation(rule, construct, "expected `%s`, possible outcomes are %s" % (want, outs), fi.loc(), None, label_of(case))
         else:
